@@ -49,7 +49,16 @@ def m_global(ctx, case):
     from pyModeS import adsb
     (m0, rl0), (m1, rl1) = build(case)
     te, to = case["te"], case["to"]
-    if case.get("dt"):
+    if case.get("dt") == "np":
+        # numpy stamps (what pandas / numpy pipelines hand over): same ordering semantics as int | datetime
+        import numpy as np
+        if case["addr"] & 1:
+            b64 = np.datetime64("2024-01-01T00:00:00.000")
+            T0, T1 = b64 + np.timedelta64(int(round(te * 1000)), "ms"), b64 + np.timedelta64(int(round(to * 1000)), "ms")
+        else:
+            T0, T1 = np.float64(te), np.float64(to)
+        ctx.hit("numpy_ts")
+    elif case.get("dt"):
         base = datetime.datetime(2024, 1, 1)
         T0, T1 = base + datetime.timedelta(seconds=te), base + datetime.timedelta(seconds=to)
         ctx.hit("datetime_ts")
@@ -71,6 +80,9 @@ def m_global(ctx, case):
         ctx.violation(key_w or "argument-order-changes-result", frames=[m0, m1], te=te, to=to, a=r_a, b=r_b)
         return
     if r_a[0] != "ok":
+        if case.get("dt") == "np" and r_a[1] == "TypeError":
+            ctx.amb()   # an implementation may refuse stamp types beyond the documented int | datetime: not judged
+            return
         ctx.violation("global-decode-raises", frames=[m0, m1], observed=r_a[1:])
         return
     res = r_a[1]
@@ -161,7 +173,7 @@ def mkcase(rng, lat, lon, dist_nm=None, order=None):
             "ca": [rng.randrange(8), rng.randrange(8)], "addr": rng.fill(24), "te": te, "to": to,
             "ref": rng.choice((None, None, [lat + rng.uniform(-1, 1), lon + rng.uniform(-1, 1)],
                                [rng.uniform(-90, 90), rng.uniform(-180, 180)], [rng.randint(-90, 90), rng.randint(-180, 179)])),
-            "dt": rng.random() < 0.15, "api": rng.choice(("position", "airborne_position")),
+            "dt": rng.choice((False,) * 16 + (True,) * 3 + ("np",)), "api": rng.choice(("position", "airborne_position")),
             "lower": rng.choice((0, 0, 0, 0, 0, 0, 0, 1, 2, 3))}
 
 
